@@ -55,6 +55,9 @@ def check(cx):
     rule_kick_relative(cx, r7)
     depends(cx, r7, 'C15', ('R15.2', 'R15.3'), 'NICK re-keys every membership and is announced',
             only=r'rekey\|(member-entries|Channel)|announcement')
+    depends(cx, r7, 'C03', ('R3.3', 'R3.6'), 'a registered connection stays marked as such, so its disconnect is cleaned up',
+            only=r'writes-authenticated|authenticate-reentry')
+    depends(cx, r7, 'C02', ('R2.1',), 'only the teardown takes a user out of the registry', only=r'registry-remove|calls-remove_user')
     depends(cx, r7, 'C06', ('R6.3', 'R6.5'), 'a disconnect removes the user from every roster and nobody else',
             only=r'(not-cleaned|conditional-clean)\|Channel|foreign-effect|no-registry-removal')
 
